@@ -37,6 +37,7 @@ ASSUMPTIONS = ['remove only of existing keys; replace(idx) only while queue orde
 
 ENDPOINTS = ['http://a/api', 'http://b/api']
 UNPATCHED_ENDPOINT = 'http://c/api'
+SLASH_SIBLING = 'http://a/api/'      # another endpoint: differs from the first one by a trailing slash only
 METHODS = ['m1', 'm2']
 UNPATCHED_METHOD = 'm9'
 IDS: List[Any] = [1, 0, 'x', 2, '', -1, 7, '0']
@@ -113,14 +114,14 @@ def _draw_ops(ch: Any, n_ops: int, model_for_preconditions: MockerModel, allow_b
             m.remove(e, me)
             ops.append({'op': 'remove', 'endpoint': e, 'method': me})
         elif kind == 'call':
-            e = ch.choice(ENDPOINTS_ + [UNPATCHED_ENDPOINT], 'op.endpoint')
+            e = ch.choice(ENDPOINTS_ + [UNPATCHED_ENDPOINT, SLASH_SIBLING], 'op.endpoint')
             me = ch.choice(METHODS_ + [UNPATCHED_METHOD], 'op.method')
             params, rid = _draw_params(ch), ch.choice(IDS, 'call.id')
             m.serve(e, me, params, rid)
             ops.append({'op': 'call', 'endpoint': e, 'method': me, 'params': params, 'id': rid,
                         'via': ch.choice(['send', 'call'], 'call.via')})
         else:
-            e = ch.choice(ENDPOINTS_ + [UNPATCHED_ENDPOINT], 'op.endpoint')
+            e = ch.choice(ENDPOINTS_ + [UNPATCHED_ENDPOINT, SLASH_SIBLING], 'op.endpoint')
             n = 1 + ch.draw(3, 'batch.n')
             ids = ch.shuffle(IDS, 'batch.ids')[:n]
             els = [{'method': ch.choice(METHODS_ + [UNPATCHED_METHOD], 'op.method'), 'params': _draw_params(ch), 'id': i}
@@ -263,7 +264,7 @@ def fam_sync(w: World) -> None:
     MC.REAL_CALLS.clear()
     model = MockerModel(passthrough)
     model.reentrant = True
-    clients = {e: MC.SimHttpClient(e) for e in ENDPOINTS + [UNPATCHED_ENDPOINT]}
+    clients = {e: MC.SimHttpClient(e) for e in ENDPOINTS + [UNPATCHED_ENDPOINT, SLASH_SIBLING]}
     def nested_call() -> Any:
         """The re-entering callback's nested call: same endpoint, same method, same client."""
         from ..ref.mocker import CallbackTrouble
@@ -367,7 +368,7 @@ def fam_async(w: World) -> None:
 
         async def caller(t: int, script: List[Dict[str, Any]]) -> None:
             key_ref: List[Any] = [None]
-            clients = {e: MC.SimHttpAsyncClient(e, tracers=[Arrival(key_ref)]) for e in ENDPOINTS + [UNPATCHED_ENDPOINT]}
+            clients = {e: MC.SimHttpAsyncClient(e, tracers=[Arrival(key_ref)]) for e in ENDPOINTS + [UNPATCHED_ENDPOINT, SLASH_SIBLING]}
             for k, op in enumerate(script):
                 await asyncio.sleep(op['delay'])
                 key_ref[0] = (t, k)
